@@ -104,7 +104,7 @@ func genCase(t *rapid.T) Case {
 		d := ir.VarDecl{Name: fmt.Sprintf("v%d", i), Type: vt.String()}
 		if rapid.IntRange(0, 3).Draw(t, "vardefault") == 0 {
 			// a default that relies on list coercion trips a recorded defect: keep it rare
-			g.NoSingle = rapid.IntRange(0, 14).Draw(t, "singleton-in-default") != 0
+			g.NoSingle = !g.Rare(6, "singleton-in-default")
 			d.Default = g.ConstLiteral(vt, 2)
 			g.NoSingle = false
 			if d.Default == "null" && vt.NonNull {
